@@ -14,7 +14,7 @@ CHECKS = {
  "C01": ("model_checking", "stateless deviation-bounded DFS over schedules and peer answers on the real client dispatch; differential rerun for stray replies",
          "every execution (<= B deviations) of 1-3 concurrent calls over cloned handles against the real RequestDispatch: each success carries a token the peer sent for that call's own id, no token reaches two calls, ids never repeat, and removing a stray reply leaves outcomes and wire unchanged", "5/C01", "mc"),
  "C02": ("model_checking", "stateless deviation-bounded DFS with wake-only polling; quiescence oracles at frozen and final clock",
-         "tasks are polled only after their waker fired, so a lost wakeup is a reachable stuck state; all executions within the bound end with every call resolved and no enabled work left undone", "5/C02", "mc"),
+         "tasks are polled only after their waker fired - each poll hands over a fresh waker and only the latest counts -, so a lost wakeup is a reachable stuck state; the shipped in-memory transports are driven through all two-way histories with wake obligations; all executions within the bound end with every call resolved and no enabled work left undone", "5/C02", "mc"),
  "C03": ("model_checking", "stateless deviation-bounded DFS incl. parking inside the call guard's drop (yield hooks)",
          "abandonment at every suspension point x parking between close() and cancel() x capacity/transport states x peer policy; wire-level rules R1-R4 on every execution", "5/C03", "mc"),
  "C04": ("model_checking", "stateless deviation-bounded DFS over cancel position x handler stage x limit x sink state on the real server channel; differential rerun for stray cancels",
